@@ -116,6 +116,9 @@ ConvTable == <<
   [param |-> "float64", arg |-> "\"s\"", expect |-> "ERR"],
   [param |-> "string",  arg |-> "\"s\"", expect |-> "s"],
   [param |-> "string",  arg |-> "bytes", expect |-> "bb"],
+  [param |-> "string",  arg |-> "nlabel", expect |-> "lbl"],      \* a named string type: same kind, another type
+  [param |-> "int64",   arg |-> "ndur",  expect |-> "5"],         \* a named int64 type (like time.Duration)
+  [param |-> "varstr",  arg |-> "nlabel, \"s\"", expect |-> "lbl,s"],
   [param |-> "string",  arg |-> "nil",   expect |-> "ERR"],
   [param |-> "bytes",   arg |-> "\"s\"", expect |-> "s"],
   [param |-> "iface",   arg |-> "iv7",   expect |-> "7"],
